@@ -242,7 +242,8 @@ def handle (line : String) : String :=
       let cons := consistentB (specFindings ds px)
       let nocancel := noCancelB ds
       let consall := consistentB (allFindings inp)
-      let sfind := exF ++ (if cons then (specFindings ds px).filterMap id else [])
+      -- specification: consistent ⇒ every finding of the scan; otherwise nothing inconsistent (see `sexf`)
+      let sfind := if consall then exF ++ (specFindings ds px).filterMap id else []
       -- the documented order, computed on KEYS only (a strict total order: the sorted sequence is unique)
       let sfkeys := isort optKeyLt (sfind.map sortKey)
       let splug := isort ltBytes ((inp.fsStatus ++ inp.stStatus ++ specStatus ds px).map fun (s : Status) => nameBytes s.name)
@@ -254,7 +255,7 @@ def handle (line : String) : String :=
         s!"plug={joinWith "," (out.pluginStatus.map statusStr)} plugset={joinWith "," (sortStrs (out.pluginStatus.map statusStr))} " ++
         s!"plugkeys={joinWith "," (out.pluginStatus.map fun s => hexB (nameBytes s.name))} pk={idsStr out.packages true} mut=0"
       model ++ s!" wf={boolStr nocancel} cons={boolStr cons} consall={boolStr consall} exf={boolStr (!exF.isEmpty)} " ++
-        s!"sst={if cons then "ok" else "failed"} sfind={joinWith "," (sortStrs (sfind.map findingStr))} " ++
+        s!"sst={if consall then "ok" else "failed"} sfind={joinWith "," (sortStrs (sfind.map findingStr))} sexf={joinWith "," (sortStrs (exF.map findingStr))} " ++
         s!"sfkeys={joinWith "," (sfkeys.map keyStr)} splugkeys={joinWith "," (splug.map hexB)} " ++
         s!"sdet={joinWith "," ((specStatus ds px).map statusStr)} sidx={sidx} scalls={joinWith "," (ds.map (·.name))}"
     | _, _, _, _ => "bad-op"
